@@ -11,6 +11,12 @@ pub struct Printer<'p> {
     ind: usize,
 }
 
+/// While set, parameter and return types of functions that are anonymous records list their fields
+/// in the opposite order of every other mention of that type (let annotations, literals). Whether the two spellings are one type is
+/// not documented: such a program may be refused with a type error, but if it compiles, every
+/// field must still be addressed by its NAME (see fam/diff.rs).
+pub static PERMUTE_ANON_LETS: std::sync::atomic::AtomicBool = std::sync::atomic::AtomicBool::new(false);
+
 pub fn print_program(prog: &Program, layout_seed: Option<u64>) -> String {
     let mut p = Printer { prog, rng: layout_seed.map(Rng::new), out: String::new(), ind: 0 };
     p.program();
@@ -168,17 +174,28 @@ impl Printer<'_> {
                 }
                 self.w(n);
                 self.w(": ");
-                self.ty(t);
+                self.sig_ty(t);
             }
             self.w(")");
         }
         if f.kind == FnKind::Fn && (f.ret != Ty::Unit || self.flip(1, 8)) {
             self.w(" -> ");
-            self.ty(&f.ret);
+            self.sig_ty(&f.ret);
         }
         self.w(" ");
         self.block(&f.body);
         self.w("\n");
+    }
+
+    /// a parameter or return type: see PERMUTE_ANON_LETS
+    fn sig_ty(&mut self, t: &Ty) {
+        match t {
+            Ty::Anon(fs) if fs.len() >= 2 && PERMUTE_ANON_LETS.load(std::sync::atomic::Ordering::Relaxed) => {
+                let rev: Vec<(String, Ty)> = fs.iter().rev().cloned().collect();
+                self.ty(&Ty::Anon(rev));
+            }
+            _ => self.ty(t),
+        }
     }
 
     pub fn ty(&mut self, t: &Ty) {
